@@ -18,6 +18,8 @@ func init() {
 // the last one: a flag whose (valid) environment value is a false spelling is satisfied by it all the same
 var envSets = []map[string]string{{"a": "true"}, {"o": "ev"}, {"a": "true", "o": "ev"}, {"a": "0"}}
 
+var subDecl = ref.DeclByName("sub")
+
 func runEnv(c *Ctx) {
 	d := ref.Std()
 	type tier struct {
@@ -64,17 +66,24 @@ func runEnv(c *Ctx) {
 						continue
 					}
 					envCase(c, d, spec, node, argv, &readings[i])
+					// the same program declared on a sub-command (its initializer reads the environment at Run time)
+					if ti == 0 && n <= 2 {
+						envCase(c, subDecl, spec, node, argv, &readings[i])
+					}
 				}
 			}
 		}
 		if c.Shard == 0 {
-			c.Note(fmt.Sprintf("tier %d", ti), fmt.Sprintf("%d specs (size<=%d over %d leaves) x %d argvs (length<=%d over %q) x 3 non-empty subsets of {a (flag, $VQ_A=true), o (valued, $VQ_O=ev)} and {a: $VQ_A=0}", ns, t.size, len(t.leaves), len(argvs), t.alen, t.toks))
+			c.Note(fmt.Sprintf("tier %d", ti), fmt.Sprintf("%d specs (size<=%d over %d leaves) x %d argvs (length<=%d over %q) x 3 non-empty subsets of {a (flag, $VQ_A=true), o (valued, $VQ_O=ev)} and {a: $VQ_A=0}; specs of size <= 2 of the first tier also with the program declared on a sub-command", ns, t.size, len(t.leaves), len(argvs), t.alen, t.toks))
 		}
 	}
 }
 
 func replayEnv(c *Ctx, cs Case) {
 	d := ref.Std()
+	if cStr(cs, "decl") == "sub" {
+		d = subDecl
+	}
 	spec := cStr(cs, "spec")
 	node, err := ref.ParseSpec(d, spec)
 	if err != nil {
@@ -92,7 +101,10 @@ func envCase(c *Ctx, d *ref.Decl, spec string, node *ref.Node, argv []string, r 
 		obs := runLang(d, spec, argv, langOpts{env: env})
 		c.Count("evaluations", 1)
 		key := fmt.Sprintf("spec=%q argv=%q env=%s", spec, argv, envText(env))
-		cs := func() Case { return Case{"spec": spec, "argv": argv, "env": env} }
+		if d.Nested {
+			key += " declared on the sub-command `sub`"
+		}
+		cs := func() Case { return Case{"spec": spec, "argv": argv, "env": env, "decl": declName(d)} }
 		if obs.Panic != "" || len(obs.Exits) > 0 {
 			c.Violation("C12", key, cs(), "Run returns", obs.Summary())
 			continue
